@@ -24,7 +24,7 @@ TIERS = {
     "thorough": {"batches": 12, "worlds": 48, "targets": 64, "real": 16, "canary": 48, "abort": 0.15, "resalt": 0.05, "census": 10},
 }
 CENSUS_CHUNK = 45
-QUICK_DERIVED_STEPS = 1_000_000
+QUICK_DERIVED_STEPS = 600_000
 
 
 def build_targets(seed: int, batch: int, n: int, base: list[dict]) -> dict:
@@ -54,7 +54,7 @@ def build_targets(seed: int, batch: int, n: int, base: list[dict]) -> dict:
             if text is None:
                 continue
             sibling = (b["text"], b["id"])
-        mode = rng.choices(["auto", "explicit", "empty", "absent"], [0.6, 0.15, 0.15, 0.10])[0]
+        mode = rng.choices(["auto", "outsinks", "outall", "explicit", "empty", "absent"], [0.35, 0.2, 0.1, 0.15, 0.10, 0.10])[0]
         inp, out = workload.decl(mode, text, rng)
         mask = workload.swarm_mask(rng)
         tid = f"{batch}.{len(targets)}"
@@ -132,19 +132,28 @@ def build_census(seed: int, nworlds: int, programs: list[dict], all_masks: bool)
     targets = {}
     costs = workload._costs()  # pylint: disable=protected-access
     for b in programs:
-        derived = b.get("src") in ("wide", "twin", "fat")
+        derived = b.get("src") in workload.DERIVED
         if derived and not all_masks and workload.cost_of(b["id"], costs) > QUICK_DERIVED_STEPS:
             continue  # the most expensive derived programs are left to the thorough tier (decided by committed data)
-        for mask, mn in ((workload.DEFAULT, "d"), (workload.ALL, "a")):
-            if derived and not all_masks and (mn == "a") != (len(targets) % 5 == 0):
-                continue  # quick tier: a derived program gets one of the two trait sets (mostly default)
-            targets[f"c.{b['id']}.{mn}"] = {"text": b["text"], "inp": "auto", "out": "auto", "mask": mask, "origin": b["id"], "decl": "auto"}
+        outall = workload.decl("outall", b["text"], None)
+        outsinks = workload.decl("outsinks", b["text"], None)
+        for mask, mn, dm in ((workload.DEFAULT, "d", "auto"), (workload.ALL, "a", "auto"), (workload.DEFAULT, "o", "outsinks"), (workload.ALL, "p", "outall")):
+            if not all_masks:
+                if mn == "p":
+                    continue  # quick tier: all traits + every predicate an output is left to the thorough tier
+                if derived and mn != ("o" if len(targets) % 3 else ("a" if len(targets) % 2 else "d")):
+                    continue  # quick tier: a derived program gets one of the three variants (mostly outall)
+            inp, out = ("auto", "auto") if dm == "auto" else (outall if dm == "outall" else outsinks)
+            targets[f"c.{b['id']}.{mn}"] = {"text": b["text"], "inp": inp, "out": out, "mask": mask, "origin": b["id"], "decl": dm, "derived": derived}
     jobs = {}
     for w in range(nworlds):
         world = dict(PRISTINE) if w == 0 else build_world(seed, "census", w)
         if w > 0:  # the census worlds rotate through the logging regimes of the embedding application
             world["Lg"] = ["debug", "critical", "info", "none"][(w - 1) % 4]
         order = list(targets)
+        if w == 0 and not all_masks:
+            # quick tier: derived programs are compared between the two non-pristine census worlds only
+            order = [t for t in order if not targets[t].get("derived")]
         stream(seed, "census", "order", w).shuffle(order)
         for k in range(0, len(order), CENSUS_CHUNK):
             part = order[k : k + CENSUS_CHUNK]
@@ -428,7 +437,7 @@ def run(args) -> int:
             ],
             "worker_processes": pool.spawned,
             "worlds": len({json.dumps(j["world"], sort_keys=True) for bt in batches_by_key.values() for j in bt["jobs"].values()}),
-            "census": {"programs": len(workload.load_all()), "worlds": cfg["census"], "trait_sets": ["default", "all"]},
+            "census": {"programs": len(workload.load_all()), "worlds": cfg["census"], "variants": ["default/auto", "all/auto", "default/outputs = sink predicates", "(thorough) all/every predicate an output"], "targets": len(census["targets"]) if census else 0},
             "distinct_order_fingerprints": len(table.fps),
             "targets": len(all_targets),
             "targets_with_two_or_more_path_digests_and_one_outcome": multi_path,
